@@ -395,7 +395,7 @@ def c05(tier, seed):
             L.do('deepcopy c0 cz')
             L.do(line)
             L.do('!rejected')
-            L.do('!same c0 c9 c8')
+            L.do('!same-if-rej c0 c9 c8')
             L.do('obs c0')
             for k in range(B.maxOrder(c) + 2):
                 L.do('q c0 bop %d' % k)
@@ -711,11 +711,6 @@ def c09(tier, seed):
         g.run(rng.randrange(4, 14))
         kind = j % 4
         if kind == 3:
-            # deepcopy keeps the sharing of dict objects inside one complex; only generated when no two simplices share
-            f = g.F()
-            ids = [id(B.getAttributes(f, x)) for x in B.simplices(f)]
-            if len(set(ids)) != len(ids):
-                continue
             g.do('setidx f %d' % rng.choice(IDX)); g.do('deepcopy f r'); g.do('!sameobs f r'); g.do('obs r')
         elif kind == 0:
             g.do('snap f r'); g.do('!samecontent f r')
@@ -916,6 +911,16 @@ def vr_cases(rng, n, dims=(1, 2, 3)):
         L.do('vr e v ' + Lst(close))
         L.do('!vr e v')
         L.do('obs v')
+        if npts >= 2 and rng.random() < 0.4:
+            # the same embedding object after a point has been moved
+            mv = rng.randrange(npts)
+            newp = [rng.randrange(0, 5) for _ in range(dim)]
+            L.do('pos e u%d %s' % (mv, Lst([str(x) for x in newp])))
+            close2 = ['%d.%d' % (a, b) for a in range(len(P)) for b in range(a + 1, len(P))
+                      if e.distance(e.positionOf(P[a]), e.positionOf(P[b])) <= eps]
+            L.do('vr e v2 ' + Lst(close2))
+            L.do('!vr e v2')
+            L.do('obs v2')
         out.append(L.case())
     return out
 
